@@ -366,6 +366,31 @@ def is_fixed(u, nt, k):
     return False
 
 
+def set_prop(t, addr, pname, newval):
+    """copy of the node term with property pname of the node at address addr set to newval"""
+    ps = [Con("P", p.args[0], newval) if (t.args[0] == addr and p.args[0] == pname) else p for p in t.args[3]]
+    ks = [Con("K", k.args[0], k.args[1], [set_prop(c, addr, pname, newval) for c in k.args[2]]) for k in t.args[4]]
+    return Con("N", t.args[0], t.args[1], t.args[2], ps, ks)
+
+
+def ws_twin(t):
+    """the same pattern with the first blank inside a regex literal doubled (None when there is no such literal)"""
+    done = [False]
+
+    def go(x):
+        if isinstance(x, Con):
+            if x.name == "VR" and not done[0] and isinstance(x.args[0], bytes) and b" " in x.args[0]:
+                done[0] = True
+                return Con("VR", x.args[0].replace(b" ", b"  ", 1))
+            return Con(x.name, *[go(a) for a in x.args])
+        if isinstance(x, tuple):
+            return [go(a) for a in x]
+        return x
+
+    r = go(norm(t))
+    return r if done[0] else None
+
+
 def gen_cases(rng, tier):
     cases = []
     n_uni = 14 if tier == "quick" else 200
@@ -388,6 +413,29 @@ def gen_cases(rng, tier):
                     rules.append(Con("R", f"r{i}", twin_rule(rng, u, *rng.choice(twins))))
                 else:
                     rules.append(Con("R", f"r{i}", PatGen(rng, u).pat_for(src)))
+            # two rules that differ only by white space INSIDE a quoted regex must not share a cache entry (the pattern
+            # cache is keyed by the pattern text): give some node a string property with a blank and add the pair
+            if rng.random() < 0.35:
+                init_ok = {(c.name, f.name) for c in u.classes for f in u.merged(c.name) if f.init}
+                cand = [(n, p) for n in allnodes for p in n.args[3]
+                        if p.args[1].name == "VStr" and (n.args[1].decode(), p.args[0].decode()) in init_ok]
+                if cand:
+                    n0, p0 = rng.choice(cand)
+                    val = rng.choice(["ab cd", "x y", "a b c", "q  r"])
+                    roots = [set_prop(r, n0.args[0], p0.args[0], Con("VStr", val)) for r in roots]
+                    allnodes, seen = [], set()
+                    for r in roots:
+                        for n in iter_nodes(r, seen):
+                            allnodes.append(n)
+                    cut = val.index(" ") + 2
+                    lit1 = val[:cut]
+                    lit2 = lit1.replace(" ", "  ", 1) if "  " not in lit1 else lit1.replace("  ", " ", 1)
+                    cls_ = Con("Cls", [n0.args[1]])
+                    pair = [Con("PT", cls_, [Con("F", p0.args[0], Con("FVal", Con("VR", lit1), None))]),
+                            Con("PT", cls_, [Con("F", p0.args[0], Con("FVal", Con("VR", lit2), None))])]
+                    rng.shuffle(pair)
+                    for q in pair:
+                        rules.append(Con("R", f"r{len(rules)}", q))
             targets = [r.args[0] for r in roots]
             extra = [n.args[0] for n in allnodes if n.args[0] not in targets]
             rng.shuffle(extra)
